@@ -7,6 +7,7 @@ package replay
 
 import (
 	"bytes"
+	"context"
 	"errors"
 	"fmt"
 	"io"
@@ -15,7 +16,9 @@ import (
 	"reflect"
 	"testing"
 
+	"github.com/apache/thrift/lib/go/thrift"
 	"github.com/parsyl/parquet"
+	sch "github.com/parsyl/parquet/schema"
 )
 
 func sp(s string) *string   { return &s }
@@ -329,6 +332,113 @@ func TestReplayC11(t *testing.T) {
 				got, err := readAll(bytes.NewReader(file[:n]))
 				if err == nil {
 					t.Errorf("REPLAY-FAIL C11 codec=%s: the %d-byte prefix of a %d-byte file was accepted (%d rows delivered, no error)", name, n, len(file), len(got))
+				}
+			}()
+		}
+	}
+}
+
+// ---- C18: unsupported features
+
+type countReader struct {
+	r io.Reader
+	n int
+}
+
+func (c *countReader) Read(p []byte) (int, error) {
+	n, err := c.r.Read(p)
+	c.n += n
+	return n, err
+}
+
+func TestReplayC18(t *testing.T) {
+	rs := recs(7, 6)
+	ser := thrift.NewTSerializer()
+	ser.Protocol = thrift.NewTCompactProtocolFactory().GetProtocol(ser.Transport)
+	for name, codec := range codecs {
+		file := writeFile(t, rs, 3, []int{4, 3}, codec)
+		footer, err := parquet.ReadMetaData(bytes.NewReader(file))
+		if err != nil {
+			t.Fatal(err)
+		}
+		type pagePos struct {
+			off, hlen int
+			ph        *sch.PageHeader
+			col       string
+			levels    bool
+		}
+		var pages []pagePos
+		for _, rg := range footer.RowGroups {
+			for _, col := range rg.Columns {
+				off := int(col.FileOffset)
+				end := off + int(col.MetaData.TotalCompressedSize)
+				for off < end {
+					cr := &countReader{r: bytes.NewReader(file[off:])}
+					ph, err := parquet.PageHeader(cr)
+					if err != nil {
+						t.Fatal(err)
+					}
+					path := fmt.Sprint(col.MetaData.PathInSchema)
+					lv := path != "[id]" && path != "[flag]" && path != "[count]" && path != "[amount]"
+					pages = append(pages, pagePos{off, cr.n, ph, path, lv})
+					off += cr.n + int(ph.CompressedPageSize)
+				}
+			}
+		}
+		mutate := func(desc string, pp pagePos, f func(h *sch.PageHeader)) {
+			h := *pp.ph
+			d := *pp.ph.DataPageHeader
+			h.DataPageHeader = &d
+			f(&h)
+			b, err := ser.Write(context.TODO(), &h)
+			if err != nil {
+				t.Fatal(err)
+			}
+			if len(b) != pp.hlen {
+				return // re-encoding changed the header length; skip this variant
+			}
+			mod := append([]byte{}, file...)
+			copy(mod[pp.off:], b)
+			func() {
+				defer func() {
+					if r := recover(); r != nil {
+						t.Errorf("REPLAY-FAIL C18 codec=%s column=%s page@%d %s: panic: %v", name, pp.col, pp.off, desc, r)
+					}
+				}()
+				got, err := readAll(bytes.NewReader(mod))
+				if err == nil {
+					t.Errorf("REPLAY-FAIL C18 codec=%s column=%s page@%d %s: file accepted, %d rows delivered, no error", name, pp.col, pp.off, desc, len(got))
+				}
+			}()
+		}
+		for _, pp := range pages {
+			mutate("type=DICTIONARY_PAGE", pp, func(h *sch.PageHeader) { h.Type = sch.PageType_DICTIONARY_PAGE })
+			mutate("type=DATA_PAGE_V2", pp, func(h *sch.PageHeader) { h.Type = sch.PageType_DATA_PAGE_V2 })
+			mutate("type=INDEX_PAGE", pp, func(h *sch.PageHeader) { h.Type = sch.PageType_INDEX_PAGE })
+			mutate("encoding=RLE_DICTIONARY", pp, func(h *sch.PageHeader) { h.DataPageHeader.Encoding = sch.Encoding_RLE_DICTIONARY })
+			mutate("encoding=PLAIN_DICTIONARY", pp, func(h *sch.PageHeader) { h.DataPageHeader.Encoding = sch.Encoding_PLAIN_DICTIONARY })
+			mutate("encoding=DELTA_BINARY_PACKED", pp, func(h *sch.PageHeader) { h.DataPageHeader.Encoding = sch.Encoding_DELTA_BINARY_PACKED })
+			if pp.levels {
+				mutate("definition_level_encoding=BIT_PACKED", pp, func(h *sch.PageHeader) { h.DataPageHeader.DefinitionLevelEncoding = sch.Encoding_BIT_PACKED })
+			}
+			if pp.col == "[tags]" || pp.col == "[items code]" || pp.col == "[items score]" {
+				mutate("repetition_level_encoding=BIT_PACKED", pp, func(h *sch.PageHeader) { h.DataPageHeader.RepetitionLevelEncoding = sch.Encoding_BIT_PACKED })
+			}
+		}
+		// a dictionary page without a data page header at all (first page of a chunk)
+		for _, pp := range pages[:1] {
+			h := sch.PageHeader{Type: sch.PageType_DICTIONARY_PAGE, UncompressedPageSize: pp.ph.UncompressedPageSize, CompressedPageSize: pp.ph.CompressedPageSize,
+				DictionaryPageHeader: &sch.DictionaryPageHeader{NumValues: 1, Encoding: sch.Encoding_PLAIN}}
+			b, _ := ser.Write(context.TODO(), &h)
+			mod := append(append(append([]byte{}, file[:pp.off]...), b...), file[pp.off+pp.hlen:]...)
+			func() {
+				defer func() {
+					if r := recover(); r != nil {
+						t.Errorf("REPLAY-FAIL C18 codec=%s: dictionary page without data page header: panic: %v", name, r)
+					}
+				}()
+				if got, err := readAll(bytes.NewReader(mod)); err == nil {
+					t.Errorf("REPLAY-FAIL C18 codec=%s: dictionary page accepted, %d rows", name, len(got))
 				}
 			}()
 		}
